@@ -43,7 +43,7 @@ impl std::error::Error for DecodeErr {}
 #[derive(Debug)]
 enum DecodeState {
     LookingForMessageStart {
-        num_discarded_bytes: u16,
+        num_discarded_bytes: usize,
         num_init_seq_bytes: u8,
     },
     ParsingNormal,
@@ -185,7 +185,7 @@ impl NonOwningDecoder {
                 {
                     *num_init_seq_bytes += 1;
                 } else {
-                    *num_discarded_bytes += 1 + u16::from(*num_init_seq_bytes);
+                    *num_discarded_bytes += 1 + usize::from(*num_init_seq_bytes);
                     *num_init_seq_bytes = 0;
                 }
                 if *num_init_seq_bytes == 8 {
@@ -196,7 +196,7 @@ impl NonOwningDecoder {
                     self.crc
                         .update(&[0x1b, 0x1b, 0x1b, 0x1b, 0x01, 0x01, 0x01, 0x01]);
                     if num_discarded_bytes > 0 {
-                        return Err(DecodeErr::DiscardedBytes(num_discarded_bytes as usize));
+                        return Err(DecodeErr::DiscardedBytes(num_discarded_bytes));
                     }
                 }
             }
